@@ -698,7 +698,8 @@ func (m *smodel) add(a netip.Addr, names []string) {
 }
 
 var (
-	stAddrs = []netip.Addr{netip.MustParseAddr("1.2.3.4"), netip.MustParseAddr("::1"), netip.MustParseAddr("fe80::1%eth0")}
+	// the IPv4-mapped twin of the first address is a different key
+	stAddrs = []netip.Addr{netip.MustParseAddr("1.2.3.4"), netip.MustParseAddr("::1"), netip.MustParseAddr("fe80::1%eth0"), netip.MustParseAddr("::ffff:1.2.3.4")}
 	stNames = []string{"a.example", "A.Example", "b.example", "über.example", "ÜBER.example", "B.EXAMPLE", "c"}
 )
 
@@ -892,6 +893,9 @@ func runStorageBig(r *mon.Run, c stBig, q *int64) {
 		if i%2 == 0 {
 			return netip.AddrFrom4([4]byte{10, 0, byte(i >> 8), byte(i)})
 		}
+		if i%5 == 1 { // the mapped twin of an even-numbered address, a key of its own
+			return netip.AddrFrom16([16]byte{10: 0xff, 11: 0xff, 12: 10, 13: 0, 14: byte((i - 1) >> 8), 15: byte(i - 1)})
+		}
 		return netip.AddrFrom16([16]byte{0x20, 0x01, 0xd, 0xb8, 14: byte(i >> 8), 15: byte(i)})
 	}
 	name := func(i, variant int) string {
@@ -992,7 +996,7 @@ func TestStorage(t *testing.T) {
 			r.Count("add_sequences", int64(hi-lo))
 		})
 	}
-	r.Exhaustive(fmt.Sprintf("every sequence of 1..%d Add calls over %d records (3 addresses incl. a zoned one x {no name, each of 7 names in 3 letter cases incl. non-ASCII, 7 two-name combinations}); all queries after every Add", depth, len(al)))
+	r.Exhaustive(fmt.Sprintf("every sequence of 1..%d Add calls over %d records (4 addresses incl. a zoned one and an IPv4-mapped twin x {no name, each of 7 names in 3 letter cases incl. non-ASCII, 7 two-name combinations}); all queries after every Add", depth, len(al)))
 	r.Sample([]string{al[1].String(), al[2].String(), al[0].String(), al[12].String()})
 	nr := r.Pick(3_000, 200_000)
 	mon.Parallel(nr, func(w, lo, hi int) {
